@@ -238,8 +238,41 @@ def run(chk, repo, tier):
                 continue
             if e or nfe != 1:
                 probs.append(f"residual exponent {({show(k)[:160]: repr(c) for k, c in e.items()})}")
+        # no refusal of an honest aggregate other than through a validation predicate, the n >= 1 gate, or (basic suite
+        # only) the distinct-messages precondition
+        spurious = []
+        nmsg = t_len(MSGs) if False else None
+        for p in v_p:
+            if p.outcome == "raise":
+                spurious.append((p, f"raises {p.value.clsname()} at {p.value.where}"))
+                continue
+            if p.outcome == "return" and p.value is False:
+                just = []
+                for a, t, _ in p.facts:
+                    if not isinstance(a, Term):
+                        continue
+                    if (a.op == "is_inf" and t) or (a.op in ("subgroup_check", "pairing_args_on_curve") and not t) \
+                            or (a.op.startswith("decodes_") and not t):
+                        just.append(a)
+                    elif suite == "G2Basic" and "len_set" in show(a):
+                        just.append(a)
+                    elif _is_n_gate(a, t, n):
+                        just.append(a)
+                if not just:
+                    spurious.append((p, f"returns False on path {' '.join(p.branch_lines()[-3:])} with facts "
+                                        f"{[(show(a)[:80], t) for a, t, _ in p.facts][-3:]}"))
+        chk.ob("C03.R5", construct, "an honest aggregate is refused only by a validation predicate, the n >= 1 gate"
+               + (", or the distinct-messages precondition" if suite == "G2Basic" else ""), not spurious,
+               "; ".join(d for _p, d in spurious[:2]) or f"{len(v_p)} paths", mv.where)
         chk.ob("C03.R5", construct, "honest aggregate ⇒ exponent ≡ 0", not probs and bool(accp),
                "; ".join(probs[:2]) or f"{len(accp)} accepting paths", mv.where)
+
+
+def _is_n_gate(a, t, n):
+    """a decided comparison of the common sequence length with a constant that is false/true exactly for n < 1"""
+    from ..ranges import interval_of_facts as _iv
+    lo, hi, _holes, _ = _iv([(a, t)], n)
+    return hi < 1
 
 
 MANIFEST = {
